@@ -67,6 +67,7 @@ type c07Rule struct {
 	Hash  int   `json:"hash"`
 	Paths []int `json:"paths"`
 	Get   bool  `json:"get,omitempty"` // methods: [GET]
+	Num   bool  `json:"num,omitempty"` // path_params: the first wildcard of every route must be all digits (regex matcher)
 	Bt    int   `json:"bt,omitempty"`  // backtracking: 0 unset, 1 on, 2 off
 }
 
@@ -139,6 +140,7 @@ func c07GenRules(r *vf.Rand, src int, lit bool) []c07Rule {
 		if !lit {
 			rl.Get = r.Chance(30)
 			rl.Bt = r.Intn(3)
+			rl.Num = r.Chance(25)
 		}
 
 		out = append(out, rl)
@@ -281,7 +283,14 @@ func c07RuleSet(src int, rs []c07Rule) *config.RuleSet {
 		}
 
 		for _, p := range r.Paths {
-			rc.Matcher.Routes = append(rc.Matcher.Routes, config.Route{Path: c07Exprs[p]})
+			rt := config.Route{Path: c07Exprs[p]}
+
+			if i := strings.Index(c07Exprs[p], "/:"); r.Num && i >= 0 {
+				name := strings.SplitN(c07Exprs[p][i+2:], "/", 2)[0]
+				rt.PathParams = []config.ParameterMatcher{{Name: name, Type: "regex", Value: "^[0-9]+$"}}
+			}
+
+			rc.Matcher.Routes = append(rc.Matcher.Routes, rt)
 		}
 
 		if r.Get {
